@@ -58,6 +58,8 @@ EXPECT = {
     "seed-C17b-u": ["C17"], "seed-C18a-u": ["C18"], "seed-C18b-u": ["C18"], "seed-C19a-u": ["C19"], "seed-C19b-u": ["C19"],
     "seed-C02-v": ["C02", "C05"], "seed-C03-v": ["C03"], "seed-C04-v": ["C04"], "seed-C05-v": ["C05"], "seed-C06-v": ["C06"], "seed-C07-v": ["C07"], "seed-C08-v": ["C08", "C04"],
     "seed-C11-v": ["C11"], "seed-C12-v": ["C12", "C04"], "seed-C13-v": ["C13"], "seed-C15-v": ["C15", "C04"], "seed-C16-v": ["C16"],
+    "seed-C02-w": ["C02"], "seed-C03-w": ["C03"], "seed-C05-w": ["C05"], "seed-C06-w": ["C06"], "seed-C07-w": ["C07"], "seed-C08-w": ["C04", "C16"], "seed-C11-w": ["C11", "C16"],
+    "seed-C12-w": ["C12"], "seed-C13-w": ["C13"], "seed-C15-w": ["C15"], "seed-C16-w": ["C16"], "seed-C19-w": ["C19"],
     "seed-C07-o": ["C07"], "seed-C08-o": ["C08"], "seed-C10-o": ["C10"], "seed-C11-o": ["C11"], "seed-C13-o": ["C13"], "seed-C16-o": ["C16"], "seed-C19-o": ["C19"],
 }
 
